@@ -273,6 +273,36 @@ def k6_pipeline(i1: List[int], i2: List[int]) -> bool:
     return _pipeline_ok([text(i1), text(i2)], dict(P.get('kw') or {}))
 
 
+CODE_LETTERS = ['D', 'A', 'a', 'L', 'h', 'H', 'X', 'n', 'N', 'C', 'b', 'B', 'M', '.', '?', '*']
+VAR_PARTS = ['1', '77', 'x']
+
+
+def k6_code_letters(ci: int, v1: int, v2: int, v3: int, shape: int) -> bool:
+    """
+    pre: 0 <= ci < len(CODE_LETTERS) and 0 <= shape < 3
+    pre: 0 <= v1 < len(VAR_PARTS) and 0 <= v2 < len(VAR_PARTS) and v3 == 0
+    post: __return__
+    """
+    # examples holding, as a CONSTANT field, a character that rexpy uses internally as a category code,
+    # next to a field that varies (rexpy represents literals and category codes in the same tuples)
+    def pick(i, menu):
+        for k in range(len(menu)):
+            if i == k:
+                return menu[k]
+        return menu[-1]
+    c = pick(ci, CODE_LETTERS)
+    parts = [pick(v, VAR_PARTS) for v in (v1, v2)] + ['2']
+    shape = pick(shape, [0, 1, 2])
+    if shape == 0:
+        ex = [c + '-' + p_ for p_ in parts]
+    elif shape == 1:
+        ex = [p_ + '/' + c for p_ in parts]
+    else:
+        ex = [c + c + ' ' + p_ for p_ in parts]
+    kw = dict(P.get('kw') or {})
+    return _pipeline_ok(ex, kw)
+
+
 def _obs():
     obs = []
     for d, e, tier in (('portable', None, 'quick'), ('perl', None, 'thorough'), ('grep', '_.-', 'quick'),
@@ -329,6 +359,18 @@ def _obs():
                       'position); options %r' % (l1, l2, alpha, kw),
                       param={'dialect': 'portable', 'extra': None, 'l1': l1, 'l2': l2, 'kw': kw, 'alpha': alpha}, timeout=to,
                       tier=tier))
+    obs.append(Ob('K6', 'k6_code_letters', 'end to end: with a constant field that is one of rexpy\'s internal category '
+                  'code characters next to a varying field, every returned expression still compiles, is anchored, '
+                  'matches an example, is not repeated, and tagging changes nothing else',
+                  '%d code characters x 2 varying parts from a menu of %d (+ a third, fixed) x 3 shapes (symbolic indexes)'
+                  % (len(CODE_LETTERS), len(VAR_PARTS)), param={'dialect': 'portable', 'extra': None, 'kw': {}},
+                  timeout=900))
+    obs.append(Ob('K6', 'k6_pipeline', 'end to end on tiny inputs with strip=True: every expression the real extract() '
+                  'returns compiles, is anchored, matches at least one example (as given, whitespace included), none '
+                  'is returned twice, and tag=True matches exactly the same examples',
+                  'every pair of strings of length <=2 over the alphabet "a " (symbolic index per position); '
+                  'strip=True', param={'dialect': 'portable', 'extra': None, 'l1': 2, 'l2': 2, 'kw': {'strip': True},
+                                       'alpha': 'a '}, timeout=600))
     return obs
 
 
